@@ -388,9 +388,10 @@ pub open spec fn tagged(orig: MessagePayload, id: usize, out: MessagePayload) ->
                         reveal_strlit("cid");
                         // the request is stored with the origin tag of the stream it arrived on, whatever the requestor put there
                         assert(tagged(p0, id, payload));                                                                 // [C02.origin_tag_unforgeable]
-                        // a request waiting for a bound replier is never overwritten
-                        assert(self.buffered_req is None || self.server is None);                                        // [C02.request_not_dropped_while_bound]
                     }
+//@hint before "self.buffered_req = Some(Frame::Message(payload));"
+                    // a request waiting for a bound replier is never overwritten
+                    proof { assert(self.buffered_req is None || self.server is None); }                                  // [C02.request_not_dropped_while_bound]
 //@hint before "self.sink.insert(self.next_id, si);"
                             proof { assert(!self.sink.view().contains_key(self.next_id)); }                             // [C02.requestor_ids_never_reused]
 //@hint before "self.buffered_err = Some((Some(error_payload), si));"
